@@ -76,6 +76,12 @@ def do_replay(prop, path):
     elif rp.get("kind") == "flatten_driver":
         from vf.e1.flatten_jobs import replay_flatten_driver
         viol, txt = replay_flatten_driver(rp)
+    elif rp.get("kind") == "edif_net_counts":
+        from vf.e1.compose_jobs import replay_edif_net_counts
+        viol, txt = replay_edif_net_counts(rp)
+    elif rp.get("kind") == "writer_injective":
+        from vf.e1.compose_jobs import replay_writer_injective
+        viol, txt = replay_writer_injective(rp)
     elif rp.get("kind") == "hpins":
         from vf.e1.hier_jobs import replay_hpins
         viol, txt = replay_hpins(rp)
